@@ -221,6 +221,126 @@ def _opseq_task(payload):
         shutil.rmtree(d, ignore_errors=True)
 
 
+# --------------------------------------------------------------------------
+# mounted stores used from several threads (as uberjob's own pool does): E1
+# --------------------------------------------------------------------------
+
+CONC_FACTORY = "vlib.props.c12:MountConcHarness"
+
+
+def _conc_harness_base():
+    from .. import e1
+    return e1
+
+
+class MountConcHarness:
+    """Two (three) threads, each writing its own value to its own MountedStore and reading it back; the copy
+    hooks and every instruction of MountedStore.read/write/_path_context are scheduling points."""
+
+    horizon = 4000
+    int_pred = None
+    bc = True
+
+    def __init__(self, cfg):
+        self.cfg = cfg
+
+    def setup(self, s):
+        return {"res": {}}
+
+    def body(self, ctx):
+        from uberjob import stores
+
+        from .. import e1
+
+        kind = self.cfg["kind"]
+
+        def make(path):
+            return stores.TextFileStore(path) if kind == "text" else stores.JsonFileStore(path)
+
+        class Mounted(stores.MountedStore):
+            def __init__(self_):
+                super().__init__(make)
+                self_.blob = None
+
+            def copy_from_local(self_, local_path):
+                e1.hpoint("copy_from_local")
+                with open(local_path, "rb") as f:
+                    self_.blob = f.read()
+                e1.hpoint("copy_from_local.done")
+
+            def copy_to_local(self_, local_path):
+                e1.hpoint("copy_to_local")
+                with open(local_path, "wb") as f:
+                    f.write(self_.blob)
+                e1.hpoint("copy_to_local.done")
+
+            def get_modified_time(self_):
+                return None
+
+        n = self.cfg["threads"]
+        sts = [Mounted() for _ in range(n)]
+        vals = [f"value-{i}" * (i + 1) for i in range(n)]
+        res = ctx["res"]
+
+        def worker(i):
+            def f():
+                try:
+                    if self.cfg["mode"] == "write-read":
+                        sts[i].write(vals[i])
+                        res[i] = ("ret", sts[i].read())
+                    else:
+                        res[i] = ("ret", sts[i].read())
+                except BaseException as e:  # noqa
+                    if isinstance(e, e1.Abort):
+                        raise
+                    res[i] = ("exc", repr(e))
+            return f
+
+        if self.cfg["mode"] == "read-read":
+            for i in range(n):
+                sts[i].write(vals[i])
+        ths = [e1.Thread(target=worker(i)) for i in range(n)]
+        for t in ths:
+            t.start()
+        for t in ths:
+            t.join()
+        ctx["vals"] = vals
+        return None
+
+    def check(self, x):
+        msgs = []
+        if x.status != "ok":
+            msgs.append(("C12", f"{x.status}: {x.sched.deadlock_info}"))
+            return msgs, (x.status,)
+        mr = x.sched.main_result
+        if mr and mr[0] == "exc":
+            msgs.append(("C12", f"harness body raised {mr[1]!r}"))
+            return msgs, ("exc",)
+        for i, v in enumerate(x.ctx["vals"]):
+            r = x.ctx["res"].get(i)
+            if r is None or r[0] == "exc":
+                msgs.append(("C12", f"thread {i}: write/read through its own MountedStore failed while another mounted store was in use: {r}"))
+            elif r[1] != v:
+                msgs.append(("C12", f"thread {i}: read through its own MountedStore returned {r[1]!r}, it had written {v!r} (another mounted store was in use concurrently)"))
+        return msgs, ("ok", tuple(sorted(x.ctx["res"].items())))
+
+
+def mounted_concurrency(tier):
+    from uberjob.stores import _mounted_store as ms
+
+    from .. import e1, e1run
+
+    e1.install_bc([ms.MountedStore.read, ms.MountedStore.write, ms._path_context.__wrapped__], mode="all")
+    cfgs = [{"kind": k, "threads": 2, "mode": m} for k in ("text", "json") for m in ("write-read", "read-read")]
+    if tier != "quick":
+        cfgs += [{"kind": "text", "threads": 3, "mode": "write-read"}]
+    budget = {"preempt": 1} if tier == "quick" else {"preempt": 2}
+    agg = e1run.explore(CONC_FACTORY, cfgs, budget)
+    v, _ = e1run.to_violations(PROP, agg, CONC_FACTORY, budget)
+    return v, {"mounted_concurrent_configs": len(cfgs), "mounted_concurrent_executions": agg["executions"], "mounted_concurrent_budget": budget,
+               "mounted_concurrent_capped": agg["capped"]}
+
+
 def _chunks(xs, k):
     xs = list(xs)
     size = max(1, (len(xs) + k - 1) // k)
@@ -280,8 +400,10 @@ def run(tier):
         n2 += r["n"]
         for key, msg, seq in r["fails"]:
             viols.append(common.Violation(PROP, f"{k} opseq {key} {_classify(vals_of(k))}", f"{k} store, sequence {seq}: {msg}", {"engine": "E3-ops", "kind": k, "pathlib": pl, "seq": seq}))
+    cv, ccov = mounted_concurrency(tier)
+    viols += cv
     cov = {
-        "evaluations": n + n2,
+        "evaluations": n + n2 + ccov["mounted_concurrent_executions"],
         "distinct_nontrivial": len(distinct),
         "roundtrips": n, "operation_sequences": n2,
         "rule": ("write+read+get_modified_time of every enumerated value through the real store: TextFileStore x encodings {default, utf-8, utf-16, utf-8-sig, latin-1}: all strings of length <= 3 over "
@@ -289,8 +411,10 @@ def run(tier):
                  "PickleFileStore: those plus tuples/sets/bytes/class instance/complex/big int; BinaryFileStore: all byte strings of length <= 1 (thorough 2) + 64 KiB; TouchFileStore; str and pathlib paths; each also through a MountedStore; "
                  "plus every operation sequence of length <= 4 over {write v1, write v2, read, get_modified_time}; distinct_nontrivial = distinct (store, value) pairs"),
         "samples": [{"store": "text", "encoding": "utf-8", "value": "a\\r\\u2028"}, {"store": "json", "value": repr(jv[40])}, {"store": "ops", "sequence": ["w1", "mtime", "w2", "read"]}],
-        "exhaustive": True,
+        "exhaustive": not ccov["mounted_concurrent_capped"],
     }
+    cov.update(ccov)
+    cov["rule"] += "; plus E1: 2 (thorough 3) threads each writing and reading back through their own MountedStore, every schedule with <= 1 (2) preemptions, every instruction of MountedStore.read/write a scheduling point"
     return {"violations": viols, "coverage": cov, "level": "exploration",
             "assumptions": ["'large values' are represented by 64 KiB / 1024-code-point strings", "NaN (not equal to itself) and non-string dict keys are outside the JSON domain"]}
 
@@ -304,6 +428,13 @@ def _classify(v):
 
 
 def replay(rep):
+    if rep.get("engine") == "E1":
+        from uberjob.stores import _mounted_store as ms
+
+        from .. import e1, e1run
+
+        e1.install_bc([ms.MountedStore.read, ms.MountedStore.write, ms._path_context.__wrapped__], mode="all")
+        return [m for t, m in e1run.replay(rep) if t == PROP]
     if rep.get("engine") == "E3-ops":
         r = _opseq_task((rep["kind"], rep["pathlib"]))
         return [m for k, m, s in r["fails"]]
